@@ -151,7 +151,7 @@ var c03Keys = []string{"a", "b", "c", "d", "e", "f", "g", "zz", "k1", "10", "9",
 func genMapDesc(t *rapid.T, depth int, label string) *E {
 	n := rapid.IntRange(2, 8).Draw(t, label+"n")
 	keys := rapid.Permutation(c03Keys).Draw(t, label+"keys")[:n]
-	typ := rapid.SampledFrom([]string{"", "", "map[string]int", "map[string]string", "map[int]string", "map[iface]", "map[int64]string", "map[uint64]string", "map[mixed]"}).Draw(t, label+"typ")
+	typ := rapid.SampledFrom([]string{"", "", "map[string]int", "map[string]string", "map[int]string", "map[iface]", "map[int64]string", "map[uint64]string", "map[mixed]", "map[mixed2]"}).Draw(t, label+"typ")
 	vals := make([]*E, n)
 	for i := range vals {
 		switch {
@@ -329,6 +329,12 @@ func genC03(t *rapid.T) (C03Case, []string, bool) {
 		case 12:
 			// pointers to scalars of every width
 			v = ZPtr(ZT(Int(int64(rapid.IntRange(0, 99).Draw(t, "pwi"))), rapid.SampledFrom([]string{"int8", "int16", "int32", "int64", "uint", "uint8", "uint16", "uint32", "uint64", "float32", "float64", "named"}).Draw(t, "pwidth")))
+			switch rapid.IntRange(0, 5).Draw(t, "pother") {
+			case 0:
+				v = ZPtr(Bool(rapid.Bool().Draw(t, "pb")))
+			case 1:
+				v = ZPtr(ZT(List(Int(3), Int(1), Int(2)), "[3]int"))
+			}
 		case 0:
 			v = ZPtr(Int(int64(rapid.IntRange(0, 99).Draw(t, "pi"))))
 		case 1:
@@ -366,7 +372,7 @@ func genC03(t *rapid.T) (C03Case, []string, bool) {
 	}
 }
 
-const c03Rule = "templates that iterate, filter or print maps (untyped, map[string]int, map[string]string, map[int]string, map[int64]string and map[uint64]string with keys beyond 2^53, map[interface{}]interface{}, nested; 2-8 entries) and hash literals with 2-8 entries (also with one key written twice or in several ways: string, number, computed) through for k,v / for v / first / keys / merge / join / json_encode / dump / nested loops / set accumulation; date filters with formats drawn from all 18 translated letters and safe literals (incl. the README's 'D, d M Y'); pointers (to scalars of every width, strings, slices, maps), structs, typed slices, arrays and named types printed in 14 positions (print, filters taking a string, join, format, loops). every case is also rendered a second time on the same engine after one key of each context map was replaced by another (same map objects, same sizes) and compared with a fresh engine. random(), the current date, empty dates and pointers nested inside printed composites are excluded by construction. non-trivial = a map/hash with >= 2 entries is iterated, filtered or printed, or a date format has >= 2 translated letters, or a non-basic value is printed; distinct by (source, context description)"
+const c03Rule = "templates that iterate, filter or print maps (untyped, map[string]int, map[string]string, map[int]string, map[int64]string and map[uint64]string with keys beyond 2^53, map[interface{}]interface{}, nested; 2-8 entries) and hash literals with 2-8 entries (also with one key written twice or in several ways: string, number, computed) through for k,v / for v / first / keys / merge / join / json_encode / dump / nested loops / set accumulation; date filters with formats drawn from all 18 translated letters and safe literals (incl. the README's 'D, d M Y'); pointers (to scalars of every width, booleans, strings, slices, arrays, maps), structs, typed slices, arrays and named types printed in 14 positions (print, filters taking a string, join, format, loops). every case is also rendered a second time on the same engine after one key of each context map was replaced by another (same map objects, same sizes) and compared with a fresh engine. random(), the current date, empty dates and pointers nested inside printed composites are excluded by construction. non-trivial = a map/hash with >= 2 entries is iterated, filtered or printed, or a date format has >= 2 translated letters, or a non-basic value is printed; distinct by (source, context description)"
 
 func TestC03Determinism(t *testing.T) {
 	r := NewRec(t, "C03", c03Rule)
